@@ -2,7 +2,8 @@
 RULE = ('drivers D1 (3 jobs, one e_end call), D2 (continue/flush/continue/end with 7-byte output), D3 (LDM + checksum, 6 jobs), D4 (overlapLog x prefix/CDict), '
         'D5 (level changed between jobs), D6 (frame abandoned after k calls by reset or free, then a new frame), D10 (abandoned, then a frame with more workers), D12 (flush carrying new input while every worker is busy), D14 (overlap as large as a job, half-size first job, one job of input per call: round-buffer re-use), D17 (slow consumer: 12 jobs offered with one byte of output room per call), D16 (LDM, 3-4 workers, 16 jobs fed two at a time), D15 (rsyncable, 256 KiB jobs, 2.5 MiB, end / flush with and without payload), D13 (level changed between 1 MiB jobs with the level-derived default window, repeats 700 000 bytes back), D9 (worker count changed between frames) run the real '
         'ZSTD_compressStream2 + zstdmt + pool code with 1 KiB jobs under the deterministic scheduler; every schedule with <= P preemptions and <= D deviations is executed; '
-        'plus two seam harnesses that call the serial-section functions (jobs arriving in every order, with an error-path job skipping ahead) and its buffer / cctx pools directly from 2-5 threads under EVERY schedule (state cache, no bound); oracles: terminates, frame decodes to the input (library + reference decoder, checksum), completed flush decodable, one output per subject; '
+        'plus two seam harnesses that call the serial-section functions (jobs arriving in every order, with an error-path job skipping ahead) and its buffer / cctx pools directly from 2-5 threads under EVERY schedule (state cache, no bound); '
+        'seam 2 (round input buffer): the real caller logic and pool with the block compression stubbed out, 10 configurations (workers x window x overlap, with and without LDM) x 4 feeding scripts x fast / slow consumer, 14 jobs, ghost stamps on every byte of the round buffer: no byte inside the LDM window at a serial step, and no byte of an unfinished job\'s prefix or source, has been overwritten (P<=1, D<=1 quick; P<=2, D<=2 thorough); oracles: terminates, frame decodes to the input (library + reference decoder, checksum), completed flush decodable, one output per subject; '
         'distinct = distinct (output, switch count); non-trivial = more than 4 thread switches')
 SRC = ['harness/c11_mt.c', 'ref/edu_decoder.c']
 ENG = ['engine/vsched.c']
@@ -23,6 +24,10 @@ def run(vc, tier):
     # narrowest seams, no preemption bound (state cache): serial section ticket protocol, buffer / cctx pools
     for seam in (0, 1):
         c.run_vx_unit('c11-seam%d' % seam, ['harness/c11_seams.c', 'ref/edu_decoder.c'], 'sched-asan', ['--seam', seam, '--maxjobs', 3 if tier == 'quick' else 4, '--exec-timeout', 20000], engine_srcs=ENG, exclude=('zstdmt_compress.c',), share=0.5)
+    # seam 2: round input buffer protocol (real ZSTD_compressStream2 + zstdmt caller logic + real pool, block compression stubbed out):
+    # ghost stamps decide "the caller never overwrites a byte that the serial long-distance step or an unfinished job may still read"
+    RING = ['harness/c11_ring.c', 'ref/edu_decoder.c']
+    c.run_vx_unit('c11-seam2', RING, 'sched-asan', ['--P', 1 if tier == 'quick' else 2, '--D', 1 if tier == 'quick' else 2, '--exec-timeout', 60000], engine_srcs=ENG, exclude=('zstdmt_compress.c',), share=0.4)
     # data races: the same drivers and seams in the sched-tsan build.  ThreadSanitizer sees only the happens-before edges of the
     # modelled primitives (engine/vsched.c announces mutex release -> acquire; create / join are the real intercepted calls), so
     # two accesses ordered only by the cooperative schedule are reported, in every explored schedule.
@@ -33,6 +38,7 @@ def run(vc, tier):
         left -= 1
     for seam in (0, 1):
         c.run_vx_unit('c11-race-seam%d' % seam, ['harness/c11_seams.c', 'ref/edu_decoder.c'], 'sched-tsan', ['--seam', seam, '--maxjobs', 3, '--exec-timeout', 60000], engine_srcs=ENG, exclude=('zstdmt_compress.c',), share=0.5, env=TSAN)
+    c.run_vx_unit('c11-race-seam2', RING, 'sched-tsan', ['--P', 1, '--D', 1, '--cfgs', 3 if tier == 'quick' else 10, '--exec-timeout', 60000], engine_srcs=ENG, exclude=('zstdmt_compress.c',), share=0.9, env=TSAN)
     c.states = sum(r.done.get('executions', 0) for _, r, _ in c.units)
     c.transitions = sum(r.stats.get('sched_points', 0) for _, r, _ in c.units)
     c.extra['blocking_waits'] = sum(r.stats.get('blocking_waits', 0) for _, r, _ in c.units)
